@@ -118,6 +118,8 @@ class Xform:
             return e.value
         if isinstance(e, ast.Name) and e.id in env and not (isinstance(env[e.id], tuple) and env[e.id][:1] == ("val",)):
             return env[e.id]
+        if isinstance(e, ast.Name) and e.id in env and env[e.id][1][:1] == ("const",):
+            return env[e.id][1][1]  # a local bound to a constant (e.g. a parameter of an inlined helper)
         if isinstance(e, (ast.Tuple, ast.List)):
             return tuple(self.const(x, env) for x in e.elts)
         try:
